@@ -161,6 +161,8 @@ func (e *racEnv) parseType(s string) (gkind, types.Type) {
 		return gCond, nil
 	case "[]int64":
 		return gSlice, types.Typ[types.Int64]
+	case "[]byte":
+		return gSlice, types.Universe.Lookup("byte").Type()
 	}
 	if strings.HasPrefix(s, "*") {
 		name := s[1:]
@@ -466,7 +468,12 @@ func (e *racEnv) call(x *ECall) gval {
 	case "beval":
 		return gval{s: "new(big.Int).SetBytes(" + e.eval(a[0]).s + ")", k: gInt, elem: nil}
 	case "bytes":
-		return gval{s: "[]byte(" + e.eval(a[0]).s + ")", k: gSlice, elem: types.Universe.Lookup("byte").Type()}
+		// strings are represented by their codes (racStr(string(x))): take the text itself
+		inner := e.eval(a[0]).s
+		if strings.HasPrefix(inner, "racStr(string(") && strings.HasSuffix(inner, "))") {
+			inner = inner[len("racStr(string(") : len(inner)-2]
+		}
+		return gval{s: "[]byte(" + inner + ")", k: gSlice, elem: types.Universe.Lookup("byte").Type()}
 	case "len":
 		return gval{s: "big.NewInt(int64(len(" + e.eval(a[0]).s + ")))", k: gInt, elem: nil}
 	case "cap":
